@@ -485,7 +485,7 @@ def main():
             rec.error(traceback.format_exc(limit=6))
         rec.write(a.out)
         return
-    n_main = 160 if a.tier == "quick" else 2000
+    n_main = 160 if a.tier == "quick" else 1700
     n_deg = 40 if a.tier == "quick" else 400
     budget = 30 if a.tier == "quick" else 300
     for i in range(n_main):
